@@ -38,6 +38,8 @@ type SerializeItems<T> = fn(&mut SketchBytes, &[T]);
 type DeserializeItems<T> = fn(SketchSlice<'_>, usize) -> Result<Vec<T>, Error>;
 
 const LG_MIN_MAP_SIZE: u8 = 3;
+/// Largest map the Java and C++ implementations can allocate (2^30 slots).
+const LG_MAX_MAP_SIZE: u8 = 30;
 const SAMPLE_SIZE: usize = 1024;
 const EPSILON_FACTOR: f64 = 3.5;
 const LOAD_FACTOR_NUMERATOR: usize = 3;
@@ -479,11 +481,17 @@ impl<T: Eq + Hash> FrequentItemsSketch<T> {
         if lg_cur > lg_max {
             return Err(Error::deserial("lg_cur_map_size exceeds lg_max_map_size"));
         }
+        if lg_max > LG_MAX_MAP_SIZE {
+            return Err(Error::deserial(format!(
+                "lg_max_map_size must be at most {LG_MAX_MAP_SIZE}, got {lg_max}"
+            )));
+        }
 
         let is_empty = (flags & EMPTY_FLAG_MASK) != 0;
         if is_empty {
             ensure_preamble_longs_in(&[PREAMBLE_LONGS_EMPTY], pre_longs)?;
-            return Ok(Self::with_lg_map_sizes(lg_max, lg_cur));
+            // an empty sketch starts from the minimum map, whatever size the writer had reached
+            return Ok(Self::with_lg_map_sizes(lg_max, LG_MIN_MAP_SIZE));
         }
 
         ensure_preamble_longs_in(&[PREAMBLE_LONGS_NONEMPTY], pre_longs)?;
@@ -498,6 +506,16 @@ impl<T: Eq + Hash> FrequentItemsSketch<T> {
             .read_u64_le()
             .map_err(insufficient_data("stream_weight"))?;
         let offset_val = cursor.read_u64_le().map_err(insufficient_data("offset"))?;
+
+        // every active item has an 8-byte count in the image and a slot in the map
+        if active_items > cursor.remaining() / 8
+            || active_items > (1usize << lg_cur.max(LG_MIN_MAP_SIZE)) * LOAD_FACTOR_NUMERATOR
+                / LOAD_FACTOR_DENOMINATOR
+        {
+            return Err(Error::deserial(format!(
+                "corrupted: {active_items} active items do not fit the image or the map"
+            )));
+        }
 
         let mut values = Vec::with_capacity(active_items);
         for i in 0..active_items {
